@@ -3,6 +3,7 @@ From Coq Require Extraction ExtrOcamlBasic ExtrOcamlString.
 From Coq Require Import List Arith.
 Require Import TT.Model.Base TT.Model.Str TT.Model.Topo TT.Model.C13Order.
 Require Import TT.Spec.TsLex TT.Spec.TsModule TT.Spec.TsObs TT.Spec.C13Spec.
+Require TT.Model.Pipeline TT.Model.PipelineZod.
 Require Import TT.Model.C13Text.
 Import ListNotations.
 
@@ -34,7 +35,21 @@ Definition c13_blocks (structs : list Pipeline.struct_def) (cmds : list Pipeline
 Definition c13_text_blocks (structs : list Pipeline.struct_def) (cmds : list Pipeline.fn_def) (zod : bool) (w : omega) (p : project)
   : option (list (list sx) * list (list sx)) :=
   match gen zod w p with Some o => Some (c13_blocks structs cmds o) | None => None end.
+(* events.ts as text (Model/Events.v through Model/C13Text.v): event id n is the n-th name, payload id n the
+   n-th Rust type (from 0) *)
+Definition c13_events_text (evs pays : list str) (w : omega) (p : project) : option str :=
+  let k := {| k_struct := fun _ => no_struct; k_cmd := fun _ => no_fn; k_event := fun e => nth (e - 1) evs [];
+              k_pay := fun n => nth n pays []; k_type := fun _ => [] |} in
+  match gen false w p with Some o => x_events (render_out k false o) | None => None end.
+(* Zod mode: per struct of types.ts, in order, the token blocks of its schema text (export const NSchema = ..;
+   export type N = ..;) *)
+Definition c13_zod_blocks (structs : list Pipeline.struct_def) (w : omega) (p : project) : option (list (list (list sx))) :=
+  let k := {| k_struct := fun b => nth b structs no_struct; k_cmd := fun _ => no_fn;
+              k_event := fun _ => []; k_pay := fun _ => []; k_type := fun _ => [] |} in
+  match gen true w p with
+  | Some o => Some (map (fun s => map (map sx_tk) (tl (cut_export [] (lex_module (PipelineZod.struct_schema_text s))))) (o_structs k o))
+  | None => None end.
 Definition c13_file_blocks (s : str) : list (list sx) := map (map sx_tk) (cut_export [] (lex_module s)).
 
 Extraction Language OCaml.
-Extraction "tt_c13.ml" c13_gen c13_gen_raw c13_viz c13_classes c13_rel c13_labels c13_viz_text c13_text_blocks c13_file_blocks.
+Extraction "tt_c13.ml" c13_gen c13_gen_raw c13_viz c13_classes c13_rel c13_labels c13_viz_text c13_text_blocks c13_file_blocks c13_events_text c13_zod_blocks.
